@@ -46,7 +46,7 @@ def send_clauses(single):
         # C07.arm: the protocol's idle reports arm / disarm the keep-alive timer
         ("C07.arm.idle", "implies(isinstance(event, Updated) and event.idle, call_index('" + single + ".restart') >= 0 and call_index('" + single + ".stop') < 0)", "C07,C16"),
         ("C07.arm.busy", "implies(isinstance(event, Updated) and not event.idle, call_index('" + single + ".stop') >= 0 and call_index('" + single + ".restart') < 0)", "C07,C16"),
-        ("C07.arm.timer-action", "implies(isinstance(event, Updated) and event.idle, call_args('" + single + ".restart')[2].name == '_idle_timeout' and same(call_args('" + single + ".restart')[2].obj, self))", "C07,C16"),
+        ("C07.arm.timer-action", "implies(isinstance(event, Updated) and event.idle, is_method_of(call_args('" + single + ".restart')[2], self, '_idle_timeout'))", "C07,C16"),
         ("C16.single-feeder", "not trace_any('calls', 'c', c[0] == 'ProtocolPort.handle' and isinstance(c[2], RawData))", "C16"),
         # C16.send.closed: the server's decision to close closes the transport
         ("C16.send.closed", "implies(isinstance(event, Closed), call_index('TCPServer._close') >= 0)", "C16,C07"),
@@ -104,3 +104,84 @@ fn(A + "._idle_timeout", params={}, model_opts=dict(VIEWS, clock=True),
        ("C07.timer.not-early", "call_time('TCPServer._initiate_server_close') == clock0() + self.config.keep_alive_timeout or self.context.terminated.flag", "C07"),
    ],
    props=("C07", "C15"))
+
+RUN_CLAUSES = lambda single: [
+    # C07.finally: the transport is closed on every way out of run()
+    ("C07.finally.closed", "call_index('TCPServer._close') >= 0", "C07,C16"),
+    # C07.arm: the keep-alive timer is armed after the protocol was initiated and before the first read
+    ("C07.arm.order", "implies(call_index('TCPServer._read_data') >= 0, 0 <= call_index('ProtocolPort.initiate') and call_index('ProtocolPort.initiate') < call_index('" + single + ".restart') "
+     "and call_index('" + single + ".restart') < call_index('TCPServer._read_data'))", "C07,C16"),
+    # C14.copy: each connection's protocol gets its own copy of the lifespan state
+    ("C14.copy", "implies(call_index('ProtocolWrapper.__init__') >= 0, not same(call_args('ProtocolWrapper.__init__')[5], self.state) and call_args('ProtocolWrapper.__init__')[5] == self.state)", "C14,C16"),
+    # C07.release: when the connection's task group is joined no keep-alive timer is left running
+    # (the join would wait for it for up to keep_alive_timeout)
+    ("C07.join.no-live-timer", "trace_all('joined', 'j', j[1] == 0)", "C07"),
+]
+
+fn(A + ".run", params={}, model_opts=VIEWS,
+   requires=[("run.pre.once", "not has(self, 'protocol') and not has(self, '_task_group') and self.idle_task.g_live == 0")],
+   ensures=RUN_CLAUSES("AsyncioSingleTask") + [
+       # C13.alpn: the protocol is chosen from what TLS negotiated; cleartext connections are HTTP/1.1 openings
+       ("C13.alpn.server", "implies(call_index('ProtocolWrapper.__init__') >= 0, "
+        "call_args('ProtocolWrapper.__init__')[6] == (self.writer.ssl_object is not None) and "
+        "implies(self.writer.ssl_object is None, call_args('ProtocolWrapper.__init__')[10] == 'http/1.1'))", "C13,C16"),
+   ],
+   props=("C07", "C16", "C14", "C13"))
+
+# ------------------------------------------------------------------------------------ trio
+T = "hypercorn.trio.tcp_server:TCPServer"
+TST = "hypercorn.trio.worker_context:TrioSingleTask"
+cls(T, fields=dict(COMMON_FIELDS, stream="obj trio:Stream", send_lock="obj trio:Lock", idle_task="obj " + TST, _task_group="maybe obj hypercorn.trio.task_group:TaskGroup"),
+    immutable=["app", "config", "context", "stream", "send_lock", "state", "idle_task"],
+    write_once=["protocol", "_task_group"])
+
+fn(T + ".protocol_send", params={"event": _ev.IO_EVENTS}, model_opts=VIEWS,
+   requires=[("send.pre.running", "has(self, 'protocol') and has(self, '_task_group') and value_of(self, 'protocol').g_initiated and value_of(self, '_task_group')._nursery is not None")],
+   ensures=send_clauses("TrioSingleTask"), props=("C16", "C07"))
+
+fn(T + "._close", params={}, model_opts=VIEWS,
+   ensures=[
+       ("C07.close.transport", "'aclose' in net_ops()", "C07,C16"),
+       # (the asyncio class stops the keep-alive timer here; the trio class does not: finding F7d
+       # is stated where it matters, at the join in run())
+   ],
+   props=("C07", "C16"))
+
+fn(T + "._read_data", params={}, model_opts=VIEWS,
+   requires=[("read.pre.running", "has(self, 'protocol') and value_of(self, 'protocol').g_initiated and not value_of(self, 'protocol').g_eof_fed"),
+             ("read.pre.timeout", "self.config.read_timeout is None or self.config.read_timeout >= 0")],
+   loops={0: {"locals": {"data": "bytes"},
+              "invariant": [("C16.read.inv", "has(self, 'protocol') and value_of(self, 'protocol').g_initiated and not value_of(self, 'protocol').g_eof_fed", "C16")],
+              "iter_ensures": [("C16.read.forward", "implies(n_after_gap('reads') == 1, trace_any('calls', 'c', c[0] == 'ProtocolPort.handle' and isinstance(c[2], RawData) and c[2].data == after_gap('reads')[0]))", "C16,C01")]}},
+   ensures=[
+       ("C07.read.closed-last", "n_after_gap('calls') >= 1 and after_gap('calls')[-1][0] == 'ProtocolPort.handle' and isinstance(after_gap('calls')[-1][2], Closed)", "C07,C16"),
+   ],
+   props=("C16", "C07"))
+
+fn(T + "._initiate_server_close", params={}, model_opts=VIEWS,
+   requires=[("isc.pre.running", "has(self, 'protocol') and value_of(self, 'protocol').g_initiated")],
+   ensures=[("C07.timeout.closes", HANDLE_CLOSED + " and 'aclose' in net_ops()", "C07,C15"),
+            ("C16.single-feeder", "not trace_any('calls', 'c', c[0] == 'ProtocolPort.handle' and isinstance(c[2], RawData))", "C16")],
+   props=("C07", "C15"))
+
+fn(T + "._idle_timeout", params={}, model_opts=dict(VIEWS, clock=True),
+   requires=[("idle.pre.running", "has(self, 'protocol') and value_of(self, 'protocol').g_initiated"),
+             ("idle.pre.sticky", "self.context.terminated.g_sticky"),
+             ("idle.pre.timeout", "self.config.keep_alive_timeout >= 0")],
+   ensures=[
+       ("C07.timer.closes", "call_index('TCPServer._initiate_server_close') >= 0", "C07,C15"),
+       ("C07.timer.not-late", "call_time('TCPServer._initiate_server_close') <= clock0() + self.config.keep_alive_timeout", "C07,C15"),
+       ("C07.timer.not-early", "call_time('TCPServer._initiate_server_close') == clock0() + self.config.keep_alive_timeout or self.context.terminated.flag", "C07"),
+   ],
+   props=("C07", "C15"))
+
+fn(T + ".run", params={}, model_opts=VIEWS,
+   requires=[("run.pre.once", "not has(self, 'protocol') and not has(self, '_task_group') and self.idle_task.g_live == 0"),
+             ("run.pre.timeout", "self.config.ssl_handshake_timeout >= 0 and (self.config.read_timeout is None or self.config.read_timeout >= 0)")],
+   # a TLS handshake that fails or times out makes run() return before anything is wired; the
+   # stream is then closed by trio.serve_listeners, which closes it when the handler returns (assumed)
+   ensures=[c if c[0] != "C07.finally.closed" else ("C07.finally.closed", "call_index('TCPServer._close') >= 0 or (self.stream.is_ssl and 'handshake' not in net_ops())", "C07,C16") for c in RUN_CLAUSES("TrioSingleTask")] + [
+       ("C13.alpn.server", "implies(call_index('ProtocolWrapper.__init__') >= 0, "
+        "call_args('ProtocolWrapper.__init__')[6] == self.stream.is_ssl and implies(not self.stream.is_ssl, call_args('ProtocolWrapper.__init__')[10] == 'http/1.1'))", "C13,C16"),
+   ],
+   props=("C07", "C16", "C14", "C13"))
